@@ -6,7 +6,7 @@ import multiprocessing as mp
 from vf import common, findings
 from vf.props import deductive
 
-KEYS = ["doctrans.emit:class_", "doctrans.emitter_utils:_make_call_meth", "doctrans.parse:function", "doctrans.parse:class_", "doctrans.emit:function", "doctrans.emitter_utils:get_internal_body", "doctrans.emitter_utils:RewriteName.visit_Name", "doctrans.ast_utils:get_function_type"]
+KEYS = ["doctrans.emit:class_", "vf.contracts.laws:function_body_roundtrip", "doctrans.emitter_utils:_make_call_meth", "doctrans.parse:function", "doctrans.parse:class_", "doctrans.emit:function", "doctrans.emitter_utils:get_internal_body", "doctrans.emitter_utils:RewriteName.visit_Name", "doctrans.ast_utils:get_function_type"]
 
 BODIES = {
     "assign": ["total = alpha + 1", "print(total)"],
@@ -20,7 +20,8 @@ BODIES = {
     "single": ["print(alpha)"],
 }
 RETURNS = {"none": None, "name": "return total", "expr": "return alpha * beta", "tuple": "return alpha, beta",
-           "zero": "return 0", "false": "return False", "empty": "return ''", "bare": "return", "none-const": "return None"}
+           "zero": "return 0", "false": "return False", "empty": "return ''", "bare": "return", "none-const": "return None",
+           "int": "return 5", "negative": "return -1", "float": "return 2.5", "true": "return True", "str": "return 'done'"}
 DOC_RET = ("", "\n\n    :returns: the result\n    :rtype: ```int```")
 
 
